@@ -1,4 +1,4 @@
-"""C09 - wallet keys follow BIP44/49/84/48 paths (path construction only)."""
+"""C09 - wallet keys follow BIP44/49/84/48 paths (path construction proved; wallet histories bounded)."""
 CONTRACT_MODULES = ['contracts.keys_hd', 'contracts.paths']
 def _c():
     import contracts.paths as p
@@ -10,9 +10,15 @@ LEVEL_TEXT = ('PATH CONSTRUCTION ONLY. keys.path_expand is proved, for every acc
               'index; hardened exactly where the BIPs say) for every witness type x single/multisig x each of the 11 networks (66 configurations), '
               'against templates restated from the BIPs (not read from config.py). Key material for a path is BIP32 derivation: the CKD contracts '
               'of C03 are part of this check.')
-LEVEL_NOTE = ('NOT covered (wallet / database histories, see C08 reasoning): indices issued without gaps or repeats, address uniqueness, restore '
-              'equivalence from seed / mnemonic / account xpub, reopen. A change in that bookkeeping (e.g. choosing the next index from the wrong '
-              'row order) is outside what these contracts can see.')
-NOT_COVERED = ['Wallet.new_key(s) / get_key(s) / keys_for_path / new_account index bookkeeping', 'restore and watch-only equivalence', 'normalize_path']
+LEVEL_NOTE = ('Index bookkeeping, address uniqueness, restore / watch-only equivalence and reopen are wallet / database HISTORIES outside the verifier (SQLAlchemy). '
+              'They are covered by a BOUNDED native stand-in (bounded/c09_wallet.py, never counted as proved): wallets of 3 witness types x 3 networks driven through random '
+              'sequences of new_key / new_key_change / get_key(s) / key_for_path (out of order) / new_account / reopen, judged by an oracle independent of the wallet code '
+              '(BIP32 derivation from the seed with spec/bip32 + pure-Python secp256k1, address encodings from spec, network constants written out in the harness).')
+NOT_COVERED = ['Wallet.new_key(s) / get_key(s) / keys_for_path / new_account index bookkeeping as proofs (bounded harness only)', 'mixed witness types in one wallet, multisig wallets (C10), mnemonic restore (C14)', 'normalize_path']
 TRUSTED = ['BIP path templates as restated in contracts/paths.py', 'C03 trusted base']
 FUZZ_QUICK = 60
+
+
+def extra_checks(tier, seed, opens):
+    from bounded import c09_wallet
+    return [c09_wallet.run(tier, seed, opens)]
